@@ -1,5 +1,5 @@
 ---------------------------- MODULE MCPushQueue ----------------------------
-EXTENDS PushQueue
+EXTENDS PushQueue, IOUtils
 Unbounded == 0          \* max_pending = 0 means no bound, as in the code
 CapsQuick    == {Unbounded, 1}
 CapsFull     == {Unbounded, 1, 2}
@@ -8,6 +8,9 @@ QueueOnly    == {"queue"}
 BothKinds    == {"try", "block"}
 TryOnly      == {"try"}
 BlockOnly    == {"block"}
+StopAny == {0}
+StopLate == {0, 4, 8, 12, 16, 22, 30}
+MutantUnderTest == IOEnv.PQ_MUTANT
 P1 == {1}
 P2 == {1, 2}
 =============================================================================
